@@ -28,11 +28,24 @@ def rect_module():
     return _rect
 
 
-def alloc_yaml(xs, ys, occ):
+def _cell_order(nc, nr, order):
+    """order of the cells in the document: row-major ascending (0), rows top-down (1), column-major descending (2), shuffled (3)"""
+    cells = [(i, j) for j in range(nr) for i in range(nc)]
+    if order == 1:
+        cells = [(i, j) for j in reversed(range(nr)) for i in range(nc)]
+    elif order == 2:
+        cells = [(i, j) for i in reversed(range(nc)) for j in reversed(range(nr))]
+    elif order == 3:
+        import random
+        random.Random(nc * 31 + nr).shuffle(cells)
+    return cells
+
+
+def alloc_yaml(xs, ys, occ, order=0):
     """allocation document of the full lattice of cells with column lines xs and row lines ys; occ[row][col] for module M"""
     rows = []
-    for j in range(len(ys) - 1):
-        for i in range(len(xs) - 1):
+    for (i, j) in _cell_order(len(xs) - 1, len(ys) - 1, order):
+        if True:
             cx, cy, w, h = (xs[i] + xs[i + 1]) / 2, (ys[j] + ys[j + 1]) / 2, xs[i + 1] - xs[i], ys[j + 1] - ys[j]
             p = occ[j][i]
             al = "{M: %r}" % p if p > 0 else "{N: 0.5}"
@@ -40,21 +53,21 @@ def alloc_yaml(xs, ys, occ):
     return "[" + ",\n ".join(rows) + "]\n"
 
 
-def build_problem(xs, ys, occ):
+def build_problem(xs, ys, occ, order=0):
     r = rect_module()
     from frame.geometry.geometry import Rectangle
     Rectangle.undefine_epsilon()
     if min(xs) < 0 or min(ys) < 0:
         # allocations live in the positive quadrant; a grid elsewhere is handed to select_box as the parsed structure get_alloc builds
         rl = []
-        for j in range(len(ys) - 1):
-            for i in range(len(xs) - 1):
+        for (i, j) in _cell_order(len(xs) - 1, len(ys) - 1, order):
+            if True:
                 cx, cy, w, h = (xs[i] + xs[i + 1]) / 2, (ys[j] + ys[j + 1]) / 2, xs[i + 1] - xs[i], ys[j + 1] - ys[j]
                 p = occ[j][i]
                 rl.append({f"b{len(rl)}": [{"dim": [cx, cy, w, h]}, {"mod": [{"M": p}] if p > 0 else [{"N": 0.5}]}]})
         ifile = {"Width": xs[-1] - xs[0], "Height": ys[-1] - ys[0], "Rectangles": rl}
     else:
-        ifile = rio.get_alloc(alloc_yaml(xs, ys, occ))
+        ifile = rio.get_alloc(alloc_yaml(xs, ys, occ, order))
     # the tool integerises areas as int(factor * area) with factor 10000 by default (option --sf sets it by hand): lattices whose
     # cells are smaller than 0.01 square units get the factor that makes their smallest cell 100 units, as a user would have to
     amin = min((xs[i + 1] - xs[i]) * (ys[j + 1] - ys[j]) for i in range(len(xs) - 1) for j in range(len(ys) - 1))
@@ -172,6 +185,8 @@ GRIDS_QUICK = [
     ([0, 1, 2, 3, 4], [0, 1, 2, 3]), ([2, 3, 5, 6, 8], [1, 2, 3]),
     ([-3, -2, -1], [-2, -1, 0]), ([-0.9, -0.8, -0.7000000000000001, -0.6000000000000001], [0, 0.1, 0.2]),          # origins left of / below zero
     ([-3.7, -3.6, -3.5, -3.4], [-1.0, -0.7, -0.4]), ([-1, 0, 1], [-0.5, 0.5, 1.5]),
+    # origins far from zero relative to the cell size / lines that agree in their first six digits (added after seed C08-7)
+    ([2500003, 2500004, 2500005, 2500006], [0, 1, 2]), ([0, 1, 2], [1000000.25, 1000000.5, 1000001.0]), ([0.1234561, 0.1234562, 0.1234564], [0, 1e-7, 3e-7]),
 ]
 GRIDS_MORE = [([0, 1, 2, 3, 4], [0, 1, 2, 3]), ([0, 1, 2, 3], [0, 1, 2, 3, 4]), ([2, 3, 5, 6, 8], [1, 2, 3]), ([0, 0.5, 1.5, 2.25], [0, 1, 1.75, 3]),
               ([0.5, 1.5, 2.5], [0.5, 1.5, 2.5]), ([0, 1, 2, 3, 4, 5], [0, 1, 2]),
@@ -202,10 +217,11 @@ def model_set_is_exactly_the_single_trunk_orthogons(g, replay=None):
     nc, nr = len(xs) - 1, len(ys) - 1
     failures, evals, nontrivial, samples = [], 0, 0, []
     ratio = 2.0
-    for occ in _occ_patterns(nc, nr, 3 if tier != "thorough" else 6):
+    for oi, occ in enumerate(_occ_patterns(nc, nr, 3 if tier != "thorough" else 6)):
         if not any(p > 0 for row in occ for p in row):
             continue
-        r, ifile, carrier = build_problem(xs, ys, occ)
+        # the cells are listed in a different order for every pattern (the search must not depend on the order of the document)
+        r, ifile, carrier = build_problem(xs, ys, occ, order=(oi + g) % 4)
         idx = cell_index(carrier, xs, ys)
         for k in (1, 2, 3):
             if k == 3 and nc * nr > 9 and tier != "thorough":
